@@ -56,6 +56,11 @@ fn main() {
                 let d = sc.to_json();
                 (vh::engine::shutdown::run_shutdown(&sc), d)
             }
+            "sendhdr" => {
+                let sc = gen_sendhdr(seed);
+                let d = serde_json::json!({"seed": seed, "family": "sendhdr", "e": if sc.e_server {"server"} else {"client"}, "position": sc.position, "defects": sc.defects, "fields": sc.fields.iter().map(|(n, v)| format!("{}: {}", n, String::from_utf8_lossy(v))).collect::<Vec<_>>()});
+                (run_sendhdr(&sc), d)
+            }
             other => panic!("unknown family {}", other),
         };
         let nt = out.stats.get("catalogue.applied") > 0 || out.stats.get("nontrivial") > 0;
